@@ -32,8 +32,22 @@ def install_reach(root):
         return mon.DISABLE
 
     mon.register_callback(tool, mon.events.PY_START, on_start)
-    mon.set_events(tool, mon.events.PY_START)
+    events = mon.events.PY_START
+    if os.environ.get('VERIF_LINECOV'):
+        # line coverage of the scratch build (each line reported once, then disabled): used by
+        # tools/linecov.py to find mechanisms the workload never drives
+        def on_line(code, line):
+            fn = code.co_filename
+            if fn.startswith(prefix) and 'tab.py' not in fn:
+                LINES.add((fn[len(prefix):], line))
+            return mon.DISABLE
+        mon.register_callback(tool, mon.events.LINE, on_line)
+        events |= mon.events.LINE
+    mon.set_events(tool, events)
     return reached
+
+
+LINES = set()
 
 
 def die_with_parent():
@@ -97,6 +111,8 @@ def main():
             out['status'] = 'error'
             out['error'] = traceback.format_exc()
     out['reached'] = sorted(reached)
+    if LINES:
+        out['lines'] = sorted(LINES)
     with open(args['out'], 'w') as f:
         json.dump(jsonable(out), f)
     return 0
